@@ -1,6 +1,7 @@
 import WS.Lemmas.MixedReads
 import WS.Lemmas.Sequences
 import WS.Lemmas.JoinLaw
+import WS.Lemmas.JoinSeq
 import WS.Lemmas.ReaderZ
 import WS.Lemmas.SrcLaw
 import WS.Lemmas.Mask
@@ -189,6 +190,41 @@ theorem read_message_any_caps (c : Conn) (hc : ReaderIdle c) (t : Nat) (ht : t =
       ∃ c2, readAllGrow c1 rid caps = ((dataPayload fs, none), c2) ∧ ReaderIdle c2 ∧
         c2.r.buf.pending = rest ∧ c2.r.hlog = c.r.hlog ++ ctlEvents fs := by
   first | exact WS.MixedReads.read_message_any_caps .. | (apply WS.MixedReads.read_message_any_caps <;> assumption)
+
+open WS.Codec WS.ReaderDecodes WS.JoinLaw WS.JoinSeq in
+/-- `join_message` with a read limit in force: a message within the limit goes through JoinMessages
+    complete, followed by the terminator; role, limit, handlers and the transport's parameters are
+    unchanged (`Keep`) -/
+theorem join_message_limited (c : Conn) (hc : ReaderIdle c) (t : Nat) (ht : t = 1 ∨ t = 2) (fs : List PFrame)
+    (hs : MsgShape t fs) (rest : Bytes)
+    (hp : c.r.buf.pending = encAll c.r.isServer fs ++ rest)
+    (hend : c.r.buf.t.together = false ∨ rest ≠ [])
+    (hsz : (dataPayload fs).length < 2 ^ 62)
+    (hlim : c.r.limit ≤ 0 ∨ ((dataPayload fs).length : Int) ≤ c.r.limit)
+    (term : Bytes) (k : Nat) (hk : 0 < k) (fuel : Nat) (hf : (dataPayload fs).length + term.length + 3 ≤ fuel) :
+    ∃ c', joinMsg fuel c .idle term k [] = ((dataPayload fs ++ term, none), c', .idle) ∧
+      ReaderIdle c' ∧ c'.r.buf.pending = rest ∧ c'.r.hlog = c.r.hlog ++ ctlEvents fs ∧ Keep c c' := by
+  first | exact WS.JoinSeq.join_message_limited .. | (apply WS.JoinSeq.join_message_limited <;> assumption)
+
+open WS.Codec WS.ReaderDecodes WS.JoinLaw WS.JoinSeq WS.Sequences in
+/-- JoinMessages over ANY NUMBER of messages (with or without a read limit; each message within it):
+    the joined reader delivers payload₁ ++ term ++ payload₂ ++ term ++ …, nothing lost, nothing mixed,
+    in wire order; `joinMsgs` is the plain loop "read the joined reader until n messages and their
+    terminators have been delivered or an error occurs"; the handlers saw the interleaved control
+    frames in wire order and the bytes behind the last message are untouched -/
+theorem join_messages (c : Conn) (hc : ReaderIdle c) (msgs : List (Nat × List PFrame))
+    (hm : ∀ m ∈ msgs, (m.1 = 1 ∨ m.1 = 2) ∧ MsgShape m.1 m.2 ∧ (dataPayload m.2).length < 2 ^ 62 ∧
+            (c.r.limit ≤ 0 ∨ ((dataPayload m.2).length : Int) ≤ c.r.limit))
+    (rest : Bytes)
+    (hp : c.r.buf.pending = (msgs.map (fun m => encAll c.r.isServer m.2)).flatten ++ rest)
+    (hend : c.r.buf.t.together = false ∨ rest ≠ [])
+    (term : Bytes) (k : Nat) (hk : 0 < k) (fuel : Nat)
+    (hf : ∀ m ∈ msgs, (dataPayload m.2).length + term.length + 3 ≤ fuel) :
+    ∃ c', joinMsgs fuel term k msgs.length c [] =
+        (((msgs.map (fun m => dataPayload m.2 ++ term)).flatten, none), c') ∧
+      ReaderIdle c' ∧ c'.r.buf.pending = rest ∧
+      c'.r.hlog = c.r.hlog ++ (msgs.map (fun m => ctlEvents m.2)).flatten := by
+  first | exact WS.JoinSeq.join_messages .. | (apply WS.JoinSeq.join_messages <;> assumption)
 
 /-! ### non-vacuity -/
 section NonVacuity
@@ -389,6 +425,32 @@ example : ∃ c1 c2, joinMsg 20 witSrv .idle [10] 3 [] = (([0x48, 0x65, 0x6c, 0x
 
 /-- the bytes delivered, evaluated directly on the model -/
 example : (joinMsg 20 witSrv .idle [10] 3 []).1 = ([0x48, 0x65, 0x6c, 0x6c, 0x6f, 10], none) := by decide
+
+/-- non-vacuity of `join_messages` (and of `join_message_limited` inside it): both messages of the
+    witness stream through JoinMessages under a read limit of 5 bytes — exactly the size of the larger
+    message — as one statement -/
+example : ∃ c', WS.JoinSeq.joinMsgs 20 [10] 3 2 { witSrv with r := { witSrv.r with limit := 5 } } [] =
+        (([0x48, 0x65, 0x6c, 0x6c, 0x6f, 10, 0xde, 0xad, 0xbe, 0xef, 10], none), c') ∧
+      ReaderIdle c' ∧ c'.r.buf.pending = [0x81] := by
+  have hI : ReaderIdle { witSrv with r := { witSrv.r with limit := 5 } } :=
+    ⟨witSrv_idle.noErr, witSrv_idle.rem, witSrv_idle.fin, witSrv_idle.wf, witSrv_idle.size, witSrv_idle.fuel,
+     witSrv_idle.hp, witSrv_idle.hq⟩
+  obtain ⟨c', h1, h2, h3, _⟩ := join_messages _ hI [(1, witMsg), (2, witMsg2)]
+    (by
+      intro m hm
+      simp only [List.mem_cons, List.mem_nil_iff, or_false] at hm
+      rcases hm with rfl | rfl
+      · exact ⟨Or.inl rfl, witMsg_shape, by decide, Or.inr (by decide)⟩
+      · exact ⟨Or.inr rfl, witMsg2_shape, by decide, Or.inr (by decide)⟩)
+    [0x81] (by decide) (Or.inl rfl) [10] 3 (by decide) 20
+    (by
+      intro m hm
+      simp only [List.mem_cons, List.mem_nil_iff, or_false] at hm
+      rcases hm with rfl | rfl <;> decide)
+  have e : (([(1, witMsg), (2, witMsg2)] : List (Nat × List PFrame)).map (fun m => dataPayload m.2 ++ [10])).flatten =
+      [0x48, 0x65, 0x6c, 0x6c, 0x6f, 10, 0xde, 0xad, 0xbe, 0xef, 10] := by decide
+  rw [e] at h1
+  exact ⟨c', h1, h2, h3⟩
 
 end Join
 
